@@ -16,6 +16,8 @@ impl<'a> Toks<'a> {
         t
     }
     pub fn done(&self) -> bool { self.i >= self.v.len() }
+    /// an independent cursor over the remaining tokens
+    pub fn clone_rest(&self) -> Toks<'a> { Toks { v: self.v[self.i..].to_vec(), i: 0 } }
     pub fn usize(&mut self) -> usize { self.next().parse().expect("HARNESS: usize") }
     pub fn isize(&mut self) -> isize { self.next().parse().expect("HARNESS: isize") }
     pub fn get<T: W>(&mut self) -> T { T::rd(self) }
